@@ -24,8 +24,8 @@ ASSUMPTIONS = [
 ]
 SHARDS_QUICK = 4
 
-LAYOUTS_2 = ["2N_C", "2N_C", "2N_C", "2N_F", "N2_C", "N2_F", "list", "tuple", "strided", "negstride", "dataframe", "view_of_bigger"]
-LAYOUTS_1 = ["1d", "1d", "1d", "list", "strided", "negstride", "series_values", "view_of_bigger"]
+LAYOUTS_2 = ["2N_C", "2N_C", "2N_C", "2N_C_readonly", "2N_F", "N2_C", "N2_F", "list", "tuple", "strided", "negstride", "dataframe", "view_of_bigger"]
+LAYOUTS_1 = ["1d", "1d", "1d", "1d_readonly", "list", "strided", "negstride", "series_values", "view_of_bigger"]
 DTYPES = ["float64", "float64", "float64", "float64", "float64", "float32", "float16", "int16", "int32", "int64", "uint8", "bool", ">f8", "longdouble"]
 
 
@@ -108,8 +108,10 @@ def layout(v, case):
     a = v.astype(dt)
     if v.shape[0] == 1:
         a1 = a[0]
-        if lay == "1d":
+        if lay in ("1d", "1d_readonly"):
             o = np.ascontiguousarray(a1)
+            if lay == "1d_readonly":
+                o.setflags(write=False)       # a read-only buffer (memory map, pandas block): must be accepted and left alone
             return o, [o]
         if lay == "list":
             o = [x.item() for x in a1]
@@ -128,8 +130,10 @@ def layout(v, case):
         big = np.zeros(len(a1) + 7, dtype=dt)
         big[3:3 + len(a1)] = a1
         return big[3:3 + len(a1)], [big]
-    if lay == "2N_C":
+    if lay in ("2N_C", "2N_C_readonly"):
         o = np.ascontiguousarray(a)
+        if lay == "2N_C_readonly":
+            o.setflags(write=False)
         return o, [o]
     if lay == "2N_F":
         o = np.asfortranarray(a)
@@ -250,7 +254,7 @@ def oracle(case):
                     continue
                 if not np.all(np.isfinite(np.asarray(val)[ok])):
                     viol.append(V("non_finite_error_bar_where_coherence_positive", q=nm, vals=case["vals"]))
-    aliasing = bool(case["bad"]) and case["dtype"] == "float64" and case["layout"] in ("1d", "2N_C", "list", "tuple", "series_values", "view_of_bigger")
+    aliasing = bool(case["bad"]) and case["dtype"] == "float64" and case["layout"] in ("1d", "2N_C", "1d_readonly", "2N_C_readonly", "list", "tuple", "series_values", "view_of_bigger")
     nondefault = case["layout"] not in ("1d", "2N_C") or case["dtype"] != "float64"
     degenerate = case["vals"] in ("zeros", "const", "onezero")
     labels = ["layout:" + case["layout"], "dtype:" + case["dtype"], "vals:" + case["vals"], "how:" + case["how"]]
